@@ -153,6 +153,9 @@ impl Array {
                     }
                 });
 
+                // the result collapses the summed dimensions into one: give the delta one unit dimension for each
+                let x = x.reshape(target_clone.clone());
+
                 vec![Some(Array::sliced_op(
                     vec![&x],
                     &op,
